@@ -198,7 +198,7 @@ class Model(object):
             return None
         action, nxt = ent
         a = ACTIONS[action]
-        eff = {'action': action, 'wire': [], 'ind': [], 'close': False, 'from': self.state, 'to': nxt}
+        eff = {'action': action, 'evt': evt, 'wire': [], 'ind': [], 'close': False, 'from': self.state, 'to': nxt}
         if a['connect']:
             self.transport = True
         if a['wire'] == 'user':
